@@ -287,8 +287,8 @@ class ComposedNode(ConfigNode):
 
             if other.ayns.delete:
                 removed = set()
-                def maybe_keep(path, node):
-                    other_node = other.ayns.get_first_not_missing_node(path)
+                def maybe_keep(node_path, node):
+                    other_node = other.ayns.get_first_not_missing_node(node_path[len(path):])
                     return node.ayns.has_priority_over(other_node)
 
                 self.ayns.filter_nodes(maybe_keep, prefix=path, removed=removed)
